@@ -1,6 +1,50 @@
 /- line-protocol driver for C09 (configuration round-trip) -/
 import QKV.Drv.PyJson
+import QKV.Model.ConfigState
 open Lean QKV QKV.Drv QKV.Py
+
+def instToJson : Except Err Inst → Json
+  | .ok i => Json.mkObj [("ok", envToJson i.q.env), ("cls", Json.str i.q.cls.name),
+                         ("hidden", envToJson i.hid)]
+  | .error e => Json.mkObj [("err", Json.str e.tag)]
+
+def sigmoidOfString : String → Except String SigmoidMode
+  | "hard" => pure .hard | "smooth" => pure .smooth | "real" => pure .real
+  | s => throw s!"unknown sigmoid mode {s}"
+
+def formOfString : String → Except String Form
+  | "literal" => pure .literal | "np_scalar" => pure .npScalar | "ndarray" => pure .ndarray
+  | "tensor" => pure .tensor | "variable" => pure .variable
+  | s => throw s!"unknown form {s}"
+
+def stepOfJson (w : World) (j : Json) : Except String Step := do
+  match (← getStr j "op") with
+  | "call" => pure .call
+  | "set_trainable" => pure .setTrainable
+  | "update_qnoise" => pure (.updateQnoise (← pyValOfJson (← j.getObjVal? "v")))
+  | "world" =>
+    let sg ← match j.getObjVal? "sigmoid" with
+      | .ok v => sigmoidOfString (← v.getStr?)
+      | .error _ => pure w.sigmoid
+    let cl ← match j.getObjVal? "channels_last" with
+      | .ok v => v.getBool?
+      | .error _ => pure w.channelsLast
+    pure (.world { w with sigmoid := sg, channelsLast := cl })
+  | s => throw s!"unknown step {s}"
+
+/-- steps are decoded left to right so that a `world` step only overrides what it names -/
+def stepsOfJson (w : World) : List Json → Except String (List Step)
+  | [] => pure []
+  | j :: t => do
+    let st ← stepOfJson w j
+    let w' := match st with | .world x => x | _ => w
+    pure (st :: (← stepsOfJson w' t))
+
+def outcomeToJson : KerasOutcome → Json
+  | .ok => Json.mkObj [("kind", Json.str "ok")]
+  | .serializeRaises => Json.mkObj [("kind", Json.str "serialize_raises")]
+  | .arrivesAsDict ks => Json.mkObj [("kind", Json.str "arrives_as_dict"),
+                                     ("keys", Json.arr (ks.map Json.str).toArray)]
 
 /-- constructor parameters whose stored value differs between two instances -/
 def diffFields (a b : Q) : List String :=
@@ -14,7 +58,9 @@ def handle (j : Json) : Except String Json := do
     let cls := Cls.all.map fun c =>
       Json.mkObj [("name", Json.str c.name), ("params", envToJson (params c)),
                   ("config_keys", Json.arr ((serialised c).map Json.str).toArray),
-                  ("dropped", Json.arr ((dropped c).map Json.str).toArray)]
+                  ("dropped", Json.arr ((dropped c).map Json.str).toArray),
+                  ("hidden_names", Json.arr ((hiddenNames c).map Json.str).toArray),
+                  ("hidden_reads", Json.arr ((hiddenReads c).map Json.str).toArray)]
     pure <| Json.mkObj [("registry", Json.arr (registeredNames.map Json.str).toArray),
                         ("classes", Json.arr cls.toArray)]
   | "lookup" =>
@@ -47,9 +93,46 @@ def handle (j : Json) : Except String Json := do
         | .ok q' => Json.arr ((diffFields q q').map Json.str).toArray
         | .error _ => Json.null
       let serializable := (dropped q.cls).all fun k => q.get k == defaultOf q.cls k
+      -- strengthening round: hidden attributes of the original and of the rebuilt instance,
+      -- the configuration of the rebuilt instance, call-time reads of the process state
+      let w : World := {}
+      let hid := match constructI w c args kw with | .ok i => envToJson i.hid | .error _ => Json.null
+      let ri := match constructI w c args kw with
+        | .ok i => fromConfigI w i.q.cls (getConfig i.q)
+        | .error e => .error e
+      let hid2 := match ri with | .ok i => envToJson i.hid | .error _ => Json.null
+      let cfg2 := match r1 with | .ok q' => envToJson (getConfig q') | .error _ => Json.null
       pure <| Json.mkObj [("construct", resultToJson (.ok q)), ("config", envToJson cfg),
         ("from_config", resultToJson r1), ("get_quantizer", resultToJson r2),
-        ("diff_fields", diff), ("serializable", Json.bool serializable)]
+        ("diff_fields", diff), ("serializable", Json.bool serializable),
+        ("hidden", hid), ("hidden_rebuilt", hid2), ("config_rebuilt", cfg2),
+        ("reads_sigmoid", Json.bool (readsSigmoid q))]
+  | "history" =>
+    -- construct, run the steps on the one object, take the configuration, rebuild
+    let c ← clsOfJson j "cls"
+    let kw ← envOfJson (← j.getObjVal? "kw")
+    let w0 : World := {}
+    let steps ← stepsOfJson w0 (← (← j.getObjVal? "steps").getArr?).toList
+    match constructI w0 c [] kw with
+    | .error e => pure <| Json.mkObj [("construct", Json.mkObj [("err", Json.str e.tag)])]
+    | .ok i0 =>
+      let s := runHistory (w0, i0) steps
+      let cfg := getConfig s.2.q
+      let r1 := fromConfigI s.1 s.2.q.cls cfg
+      let r2 := getQuantizerDictI s.1 (serialize s.2.q)
+      let cfg2 := match r1 with | .ok i' => envToJson (getConfig i'.q) | .error _ => Json.null
+      pure <| Json.mkObj [("construct", instToJson (.ok i0)), ("after", instToJson (.ok s.2)),
+        ("config", envToJson cfg), ("from_config", instToJson r1), ("get_quantizer", instToJson r2),
+        ("config_rebuilt", cfg2), ("reads_sigmoid", Json.bool (readsSigmoid s.2.q)),
+        ("sigmoid", Json.str s.1.sigmoid.name)]
+  | "keras_forms" =>
+    let c ← clsOfJson j "cls"
+    let a ← (← j.getObjVal? "stored").getArr?
+    let stored ← a.toList.mapM fun p => do
+      match p with
+      | .arr #[k, f] => pure (← k.getStr?, ← formOfString (← f.getStr?))
+      | _ => throw "bad form pair"
+    pure (outcomeToJson (kerasOutcome (configForms c stored)))
   | _ => throw s!"unknown op {op}"
 
 def main : IO Unit := lineLoop handle
